@@ -6,6 +6,7 @@ HARNESS = "rx_driver"
 LEAN_MODULES = ["ViaProofs.C16"]
 REQUIRED_THEOREMS = ["Via.C16", "Via.C16_no_throw"]
 LEVEL = "proof"
+LEVEL_TEXT = ("PROOF that the router's dispatch equals a 10-line specification matcher for every route table, target and method (refinement), and never throws; correspondence exhaustive over small tables plus random larger ones, duplicate registrations, multi-'?' targets.")
 RULE = ("route tables over segment alphabet {a,b,:x,:y} (patterns of 1..3 segments, distinct parameter names) with GET/POST "
         "handlers, against every target of 1..4 segments over {a,b,c,empty} with optional query/fragment; every "
         "single-route table exhaustively, two-route tables sampled (exhaustive in thorough), plus random larger tables; "
@@ -43,8 +44,23 @@ def targets(maxseg=4):
     return res
 
 
+def merged(routes):
+    """`add_method` semantics: a path registered again adds its methods to the existing route (which keeps its place in
+    the order), and a method registered again for the same path does not replace the first registration"""
+    order, byp = [], {}
+    for (pat, methods) in routes:
+        if pat not in byp:
+            byp[pat] = []
+            order.append(pat)
+        for (m, hid, aid) in methods:
+            if not any(mm == m for (mm, _, _) in byp[pat]):
+                byp[pat].append((m, hid, aid))
+    return [(pat, byp[pat]) for pat in order]
+
+
 def spec(routes, method, target):
     """independent statement of the documented behaviour"""
+    routes = merged(routes)
     cut = len(target)
     for ch in (b"?", b"#"):
         i = target.find(ch)
@@ -116,6 +132,16 @@ def generate(tier, rng):
         tables.append([(p, [(b"GET", 1, -1)]), (q, [(b"GET", 2, -1), (b"POST", 3, 0)])])
     # documented examples and random larger tables
     tables.append([(b"/hello", [(b"GET", 1, -1)]), (b"/hello/:name", [(b"GET", 2, -1), (b"PUT", 3, -1)])])
+    # the same path or the same method registered more than once; a literal route behind a parameterised one that
+    # matches the same paths (registration order decides); methods in several orders (the Allow list)
+    for _ in range(40 if tier == "quick" else 400):
+        p, q = rng.choice(pats), rng.choice(pats)
+        ms = [b"GET", b"POST", b"PUT", b"DELETE"]
+        rng.shuffle(ms)
+        tables.append([(p, [(ms[0], 1, -1)]), (q, [(ms[1], 2, -1)]), (p, [(ms[2], 3, -1), (ms[0], 4, -1)]),
+                       (q, [(ms[1], 5, -1), (ms[3], 6, -1)])])
+    tables.append([(b"/a/:x", [(b"GET", 1, -1)]), (b"/a/b", [(b"GET", 2, -1)])])
+    tables.append([(b"/a/b", [(b"GET", 2, -1)]), (b"/a/:x", [(b"GET", 1, -1)])])
     cases = []
     for ti, routes in enumerate(tables):
         lines = table_lines(routes)
